@@ -216,6 +216,114 @@ def c17(report, env):
     bounded(report, 'C17.same-argument-other-function', 'FACT / FACTDOUBLE of 0..25, 30, 50, 100, 170 in both call orders against exact references; 16 one-argument functions x 13 arguments in two evaluation orders', cases, fails)
 
 
+def c04_text_leaves(report, env):
+    # text leaves that look like syntax: parentheses, operators and quotes of the other kind inside a text constant are characters
+    rows = [('"("&1', '(1'), ('1&")"', '1)'), ('"f(x"="f(x"', True), ('-1&":-("', '-1:-('), ('(1+2*3)&"("', '7('), ('")"&"("', ')('), ('LEN("((")', 2),
+            ('"a)"&"b"', 'a)b'), ('("("&")")', '()'), ('"(((" = "((("', True), ('"1+1"&"*2"', '1+1*2'), ("'('&\"x\"", '(x'), ('"{"&"}"', '{}'), ('";"&","', ';,'),
+            ('IF("("=")",1,2)', 2), ('(("(")&(")"))', '()'), ('2*(3+LEN(")"))', 8)]
+    formula_table(report, 'C04.text-leaves-that-look-like-syntax', '17 trees whose text leaves hold parentheses, operators, braces and separators', rows)
+
+
+def c02(report, env):
+    # a long-lived process retains no memory per evaluation: allocated bytes (tracemalloc: also objects the garbage collector does not
+    # track, strings and tuples) stay flat over thousands of DISTINCT failing and succeeding evaluations
+    import gc
+    import tracemalloc
+    import warnings
+    from pyvc import e2e
+    p = e2e.new_parser()
+
+    def boom(*a):
+        raise ValueError('no rate for %r' % (a,))
+    p.set_function('BOOM', boom)
+    p.set_function('ECHO', lambda *a: a[0] if a else None)
+    forms = ['BOOM("k%d")', 'BOOM(%d,2)', 'SQRT(-%d)', 'ECHO("v%d")&"x"', '1/0+%d', 'IFERROR(BOOM(%d),0)', 'nosuchname+%d', 'SUM(%d,"a")', 'NOSUCHFN(%d)', '(%d']
+
+    def rounds(lo, hi):
+        for i in range(lo, hi):
+            for f in forms:
+                p.parse(f % i)
+    with warnings.catch_warnings():
+        warnings.simplefilter('default')          # what a host that has not silenced warnings runs with
+        rounds(0, 150)
+        gc.collect()
+        tracemalloc.start()
+        rounds(150, 300)
+        gc.collect()
+        a = tracemalloc.get_traced_memory()[0]
+        rounds(300, 900)
+        gc.collect()
+        b = tracemalloc.get_traced_memory()[0]
+        tracemalloc.stop()
+    fails = []
+    if b - a > 150000:
+        fails.append({'formula': 'BOOM("k<i>") ... (10 forms x 600 distinct arguments)', 'detail': 'allocated memory grows with the number of evaluations: +%d bytes over 6000 distinct evaluations after warm-up' % (b - a)})
+    bounded(report, 'C02.allocated-bytes', '10 formula forms x 600 distinct arguments after a 3000-evaluation warm-up: growth of traced allocations below 150 kB (25 bytes per evaluation)', 6000, fails)
+
+
+def c03(report, env):
+    # evaluations on different parsers in different threads never wait for each other: parser A's custom function parks until parser B,
+    # in another thread, has finished an evaluation (and the other way round)
+    import threading
+    from pyvc import e2e
+    fails, cases = [], 0
+    for trial in range(3):
+        a, b = e2e.new_parser(), e2e.new_parser()
+        done_b = threading.Event()
+        in_a = threading.Event()
+        out = {}
+
+        def wait_for_b(x):
+            in_a.set()
+            ok = done_b.wait(5)
+            return x + (1 if ok else 1000)
+        a.set_function('PARK', wait_for_b)
+        b.set_variable('y', 41)
+
+        def run_b():
+            in_a.wait(5)
+            out['b'] = b.parse('y+1')
+            done_b.set()
+        t = threading.Thread(target=run_b)
+        t.start()
+        out['a'] = a.parse('PARK(1)*2')
+        t.join(10)
+        cases += 1
+        if (out.get('a') != {'result': 4, 'error': None} or out.get('b') != {'result': 42, 'error': None}) and len(fails) < 5:
+            fails.append({'formula': 'PARK(1)*2 on parser A while y+1 runs on parser B in another thread',
+                          'detail': 'an evaluation on one parser had to wait for an evaluation on another: A %r, B %r' % (out.get('a'), out.get('b'))})
+    bounded(report, 'C03.parked-evaluation', '3 trials: parser A parked inside a custom function until parser B has finished an evaluation in another thread (5 s bound)', cases, fails, kind='table')
+    # objects created in a class body are shared by every instance (a lock there serialises all parsers, a list there is common state)
+    import ast
+    import os
+    from props.common import table_obligations
+    res = []
+    root = os.path.join(env['repo'], 'hotxlfp')
+    for d, _, files in os.walk(root):
+        for fn in sorted(files):
+            if not fn.endswith('.py'):
+                continue
+            path = os.path.join(d, fn)
+            tree = ast.parse(open(path).read())
+            rel = os.path.relpath(path, env['repo'])
+            for c in ast.walk(tree):
+                if not isinstance(c, ast.ClassDef):
+                    continue
+                for n in c.body:
+                    if isinstance(n, (ast.Assign, ast.AnnAssign)) and n.value is not None:
+                        v = n.value
+                        shared = isinstance(v, (ast.Call, ast.List, ast.Dict, ast.Set, ast.ListComp, ast.DictComp, ast.SetComp))
+                        name = ast.unparse(n.targets[0] if isinstance(n, ast.Assign) else n.target)
+                        res.append(('class-level-object.%s:%s.%s' % (rel, c.name, name), not shared,
+                                    '%s = %s in the body of class %s is one object shared by every instance' % (name, ast.unparse(v)[:60], c.name)))
+            for n in tree.body:
+                if isinstance(n, ast.Assign) and isinstance(n.value, ast.Call) and isinstance(n.value.func, ast.Attribute) and \
+                        isinstance(n.value.func.value, ast.Name) and n.value.func.value.id in ('threading', 'multiprocessing', '_thread'):
+                    res.append(('module-level-synchronisation.%s:%s' % (rel, ast.unparse(n.targets[0])), False,
+                                '%s at module level is shared by every parser and thread' % ast.unparse(n)[:80]))
+    table_obligations(report, 'C03', res)
+
+
 # ---- known findings decided by a concrete formula (KNOWN-FINDING while they still fail; an ordinary violation if not listed) -------------
 def k14(report, env):
     import datetime
@@ -285,7 +393,7 @@ def k15(report, env):
     known_e2e(report, 'C15-proper-dotted-capital-i', once['result'] != twice['result'], 'PROPER(PROPER("a\u0130b"))', 'PROPER is not idempotent: %r then %r' % (once, twice))
 
 
-TABLES = {'C04': [c04], 'C05': [k05], 'C06': [c06], 'C08': [c08], 'C09': [k09], 'C11': [c11, k11], 'C12': [c12], 'C14': [k14], 'C15': [c15, c15_sweep, k15], 'C16': [c16], 'C17': [c17], 'C18': [c18], 'C20': [c20]}
+TABLES = {'C02': [c02], 'C03': [c03], 'C04': [c04, c04_text_leaves], 'C05': [k05], 'C06': [c06], 'C08': [c08], 'C09': [k09], 'C11': [c11, k11], 'C12': [c12], 'C14': [k14], 'C15': [c15, c15_sweep, k15], 'C16': [c16], 'C17': [c17], 'C18': [c18], 'C20': [c20]}
 
 
 def run(report, env):
